@@ -403,7 +403,8 @@ def run_vh(binary, sub, records, timeout=1800, env=None, args=None, jobs=1):
                 if isinstance(o.get("i"), int):
                     o["i"] += k
                 merged.append(o)
-    merged.append({"summary": summ})
+    if summ:
+        merged.append({"summary": summ})
     return merged
 
 
